@@ -243,19 +243,24 @@ def stringify_value(token_list: list, state: ConvertState):
             # We should keep original fields in output since some editors has their
             # own syntax for field or doesn’t support fields at all so we should
             # capture actual field location in output stream
-            if accum:
-                result.append(''.join(accum))
-                accum = []
-
+            push_string(result, accum)
+            accum = []
             result.append(token)
         else:
             accum.append(stringify(token, state))
 
 
-    if accum:
-        result.append(''.join(accum))
-
+    push_string(result, accum)
     return result
+
+
+def push_string(result: list, chunks: list):
+    "Adds string of given chunks into value list"
+    # NB: nothing to add if all chunks are empty (variable with empty value):
+    # empty string in value would make it look like value with content
+    value = ''.join(chunks)
+    if value:
+        result.append(value)
 
 
 def is_group(node):
